@@ -1776,6 +1776,15 @@ impl<'a> Ev<'a> {
             if ty.chars().next().map(|c| c.is_lowercase()).unwrap_or(false) && !self.ix.structs.contains_key(&ty) && !self.ix.enums.contains_key(&ty) {
                 if let Some(f) = self.ix.get_fn(&last) { if f.self_ty.is_none() { r.extend(self.call_fn(s, &f, None, vs)); continue; } }
             }
+            // syn::Member: the field's identifier or its index, printed as such
+            if ty == "Member" && (last == "Named" || last == "Unnamed") && vs.len() == 1 {
+                let v = match (&last[..], self.deref(&s, &vs[0])) {
+                    ("Unnamed", Val::Struct { name, fields }) if name == "Index" => fields.iter().find(|(n, _)| n == "index").or_else(|| fields.iter().find(|(n, _)| n == "..")).map(|(_, v)| v.clone()).unwrap_or(vs[0].clone()),
+                    (_, v) => v,
+                };
+                r.push((s, Flow::Val(v)));
+                continue;
+            }
             if ty == "Ident" && (last == "new" || last == "new_raw") && !vs.is_empty() {
                 let site = self.site(c.span());
                 let ok = matches!(self.deref(&s, &vs[0]), Val::Str(ref x) if !x.is_empty() && x.chars().next().map(|c| c.is_alphabetic() || c == '_').unwrap_or(false) && x.chars().all(|c| c.is_alphanumeric() || c == '_'));
@@ -2004,7 +2013,7 @@ impl<'a> Ev<'a> {
             ("is_none", Val::Sym { ty, path }) if ty.name() == Some("Option") => Val::Atom(F::Not(Box::new(F::A(path.clone())))),
             ("is_some", Val::Enum { var, .. }) => Val::Bool(var == "Some"),
             ("is_none", Val::Enum { var, .. }) => Val::Bool(var == "None"),
-            ("as_ref" | "as_mut" | "clone" | "iter" | "into_iter" | "iter_mut" | "to_owned" | "as_str" | "borrow" | "cloned" | "copied" | "into_token_stream" | "to_token_stream" | "as_slice" | "as_deref" | "by_ref" | "borrow_mut" | "to_vec" | "into", _) if name != "into" || matches!(rv, Val::Tmpl(_) | Val::List(_)) || matches!(&rv, Val::Sym { ty, .. } if ty.name() == Some("TokenStream")) => rv.clone(),
+            ("as_ref" | "as_mut" | "clone" | "iter" | "into_iter" | "iter_mut" | "to_owned" | "as_str" | "borrow" | "cloned" | "copied" | "into_token_stream" | "to_token_stream" | "as_slice" | "as_deref" | "by_ref" | "borrow_mut" | "to_vec" | "into", _) if name != "into" || matches!(rv, Val::Tmpl(_) | Val::List(_) | Val::Str(_)) || matches!(&rv, Val::Opaque { what, .. } if what == "format" || what == ".to_string") || matches!(&rv, Val::Sym { ty, .. } if ty.name() == Some("TokenStream")) => rv.clone(),
             ("enumerate", Val::Array(vs)) => Val::Array(vs.iter().enumerate().map(|(i, v)| Val::Tuple(vec![Val::Int(i as i128), v.clone()])).collect()),
             ("enumerate", Val::Sym { .. }) => Val::opaque("enumerate", vec![rv.clone()]),
             ("len", Val::Array(vs)) => Val::Int(vs.len() as i128),
